@@ -633,7 +633,11 @@ def _execute(prop, trace):
             if len(bad) > 1:
                 try:
                     st["d"].process(bad)
+                    # a tree that takes a column vector for samples has consumed this block now: nothing to refuse,
+                    # and feeding the proper block as well would feed the samples twice - this replica ends here
                     out.count("probe:malformed_block_accepted")
+                    st["dead"] = True
+                    continue
                 except Exception:       # noqa
                     out.count("fault:refused_block")
         try:
@@ -1271,7 +1275,10 @@ def execute_c03(trace):
                             warnings.simplefilter("error")
                             try:
                                 d2.process(blk)
+                                # consumed without the warning that C03 promises: reported below; not fed again
                                 out.count("probe:escalated_warning_not_raised")
+                                block_warning_bad = {"block": [a_, b_], "block_has_nan": True, "warned": False, "escalated": True}
+                                continue
                             except UserWarning:
                                 out.count("fault:aborted_by_escalated_warning")
                             except Exception as e:     # noqa
